@@ -278,6 +278,8 @@ func (e *Engine) allowedStd(fn *ssa.Function) bool {
 }
 
 func (e *Engine) preludeModel(fn *ssa.Function) *ssa.Function {
+	e.pmMu.Lock()
+	defer e.pmMu.Unlock()
 	if r, ok := e.pmCache[fn]; ok {
 		return r
 	}
